@@ -78,6 +78,8 @@ def write_file(d: Path, field, u0, v0, with_time, lay='era5'):
             {'u': (('pressure_level', 'latitude', 'longitude'), u), 'v': (('pressure_level', 'latitude', 'longitude'), v), 't': (('pressure_level', 'latitude', 'longitude'), np.full(u.shape, 220.0))},
             coords={'pressure_level': lev, 'latitude': lat, 'longitude': PAD_LONS},
         )  # fmt: skip
+    if lay == 'asc':
+        ds = ds[['t', 'v', 'u']]  # ... and the other order of the variables in the file (they are found by name)
     d.mkdir(parents=True, exist_ok=True)
     ds.to_netcdf(d / '20240901.nc')
     ds.close()
@@ -200,6 +202,17 @@ def run_case(case):
                 continue
             if refused:
                 continue
+            # Wind.tla LayoutIrrelevant, on the code itself: the same field stored the other way round (axes ascending,
+            # variables listed t, v, u) answers exactly as the ERA5-shaped file does
+            if 'lay' in c:
+                try:
+                    ref = _weather(c['f'], c['u0'], c['v0'], with_time, 'era5').get_ground_speed(time=when, gt_point=pt, altitude=alt, true_airspeed=float(c['tas']), azimuth=given)
+                    if not abs(gs - ref) <= 1e-9 * max(1.0, abs(ref)):
+                        devs.append(('layout-dependent', f'{label}: ground speed {gs!r} from the file storing its axes ascending and its variables as t, v, u; {ref!r} from the ERA5-shaped file of the same field'))
+                        continue
+                except Exception as e:
+                    devs.append(('layout-dependent', f'{label}: the ERA5-shaped file of the same field raised {type(e).__name__}: {e}'))
+                    continue
             want = float(fr(o['gs2']))
             if not (math.isfinite(gs) and abs(gs * gs - want) <= 1e-9 * max(1.0, want)):
                 wu, wv = float(fr(case['wind'][0])), float(fr(case['wind'][1]))
